@@ -1469,3 +1469,185 @@ func extra2C20(c *Ctx) {
 	}
 	c.Expect("C20-R5", "vocabulary look-ups in the pre-token loop", n, 2)
 }
+
+// ---------------------------------------------------------------------------- C18-R7
+
+func init() {
+	prev := registry["C18"].Run
+	registry["C18"].Run = func(c *Ctx) { prev(c); extra3C18(c) }
+}
+
+func extra3C18(c *Ctx) {
+	c.Rule("C18-R7", "the filters never hand the sampler an empty list (tokens[len-1] and tokens[idx] need one element): topP returns its argument or the prefix up to and including the element that crossed p; minP returns its argument or the prefix before the first element strictly below max×p, with max the first element and p clamped to at most 1 by NewSampler before it is stored; topK returns its argument whenever k <= 0 (or k covers the list) and otherwise a list of length k")
+	info := c.P.Pkgs["sample"].TypesInfo
+	fVal := c.P.LookupField("sample", "token", "value")
+	prefixOK := func(f *core.Func, g *core.Graph, ex core.Exit, inclusive bool) (bool, string) {
+		r := ast.Unparen(g.ReturnedExpr(ex, 0))
+		if isIdentOf(info, r, paramAt(f, 0)) {
+			return true, ""
+		}
+		se, ok := r.(*ast.SliceExpr)
+		if !ok || se.Low != nil || se.High == nil || !isIdentOf(info, se.X, paramAt(f, 0)) {
+			return false, "returns " + core.ExprString(r)
+		}
+		// the bound: the key of the range loop over the parameter the return sits in
+		var key types.Object
+		for _, rl := range rangeLoops(f) {
+			if rl.Over == paramAt(f, 0) && within(rl.Stmt, ex.Return) {
+				if id, isID := rl.Stmt.Key.(*ast.Ident); isID {
+					key = info.Defs[id]
+				}
+			}
+		}
+		if key == nil {
+			return false, "prefix bound is not the index of a loop over the list"
+		}
+		if inclusive {
+			be, isB := ast.Unparen(se.High).(*ast.BinaryExpr)
+			if isB && be.Op == token.ADD {
+				if v, isC := core.ConstInt(info, be.Y); isC && v == 1 && isIdentOf(info, be.X, key) {
+					return true, ""
+				}
+				if v, isC := core.ConstInt(info, be.X); isC && v == 1 && isIdentOf(info, be.Y, key) {
+					return true, ""
+				}
+			}
+			return false, "prefix " + core.ExprString(se) + " can be empty (must include the element that crossed the threshold)"
+		}
+		return isIdentOf(info, se.High, key), "prefix " + core.ExprString(se)
+	}
+	if f := c.Fn("C18-R7", "sample", "topP"); f != nil {
+		g := c.G(f)
+		for i, ex := range g.Returns() {
+			ok, why := prefixOK(f, g, ex, true)
+			c.Check("C18-R7", f.Key()+" return#"+itoa(i+1)+" is the list or a non-empty prefix", c.Pos(ex.Return), ok, why)
+		}
+	}
+	if f := c.Fn("C18-R7", "sample", "minP"); f != nil {
+		g := c.G(f)
+		// threshold = list[0].value * p
+		var thr types.Object
+		ast.Inspect(f.Body, func(n ast.Node) bool {
+			as, ok := n.(*ast.AssignStmt)
+			if !ok || len(as.Lhs) != 1 || len(as.Rhs) != 1 {
+				return true
+			}
+			for _, x := range expand(g, as.Rhs[0], 2) {
+				be, isB := ast.Unparen(x.(ast.Expr)).(*ast.BinaryExpr)
+				if !isB || be.Op != token.MUL {
+					continue
+				}
+				usesP := core.UsesObj(info, be, paramAt(f, 1))
+				first := closureMentions(g, be, func(m ast.Node) bool {
+					ix, isIx := m.(*ast.IndexExpr)
+					if !isIx || !isIdentOf(info, ix.X, paramAt(f, 0)) {
+						return false
+					}
+					v, isC := core.ConstInt(info, ix.Index)
+					return isC && v == 0
+				})
+				if usesP && first {
+					if id, isID := as.Lhs[0].(*ast.Ident); isID {
+						thr = info.ObjectOf(id)
+					}
+				}
+			}
+			return true
+		})
+		c.Check("C18-R7", f.Key()+" threshold = first element × p", c.Pos(f.Decl), thr != nil, "minP's cut-off must be the first (largest) element's value times p: any other basis can exclude every element")
+		for i, ex := range g.Returns() {
+			ok, why := prefixOK(f, g, ex, false)
+			if ok && !isIdentOf(info, ast.Unparen(g.ReturnedExpr(ex, 0)), paramAt(f, 0)) {
+				// the cut is on the strict "below the threshold" edge
+				strict := false
+				for _, a := range g.AtomsAt(ex.Loc) {
+					be, isB := ast.Unparen(a.Expr).(*ast.BinaryExpr)
+					if !isB {
+						continue
+					}
+					_, y, op, okO := core.Orient(be, func(e ast.Expr) bool { return core.LastField(info, e) == fVal })
+					if !okO || thr == nil || !isIdentOf(info, y, thr) {
+						continue
+					}
+					if (op == token.LSS && a.Val) || (op == token.GEQ && !a.Val) {
+						strict = true
+					}
+				}
+				if !strict {
+					ok, why = false, "the prefix must end before the first element strictly below the threshold (with <= and p = 1 the largest element itself is cut and the list is empty)"
+				}
+			}
+			c.Check("C18-R7", f.Key()+" return#"+itoa(i+1)+" keeps the largest element", c.Pos(ex.Return), ok, why)
+		}
+	}
+	if f := c.Fn("C18-R7", "sample", "NewSampler"); f != nil {
+		g := c.G(f)
+		// minP (4th parameter) is clamped to <= 1 before the Sampler literal
+		mp := paramAt(f, 3)
+		clamp := false
+		for _, as := range g.AssignsTo(mp) {
+			a, ok := as.Node.(*ast.AssignStmt)
+			if !ok || len(a.Rhs) != 1 {
+				continue
+			}
+			if tv, okT := info.Types[a.Rhs[0]]; okT && tv.Value != nil && tv.Value.String() == "1" {
+				for _, at := range g.AtomsAt(as.Loc) {
+					be, isB := ast.Unparen(at.Expr).(*ast.BinaryExpr)
+					if !isB || !at.Val || !isIdentOf(info, be.X, mp) {
+						continue
+					}
+					if tv2, ok2 := info.Types[be.Y]; ok2 && tv2.Value != nil && tv2.Value.String() == "1" && (be.Op == token.GEQ || be.Op == token.GTR) {
+						clamp = true
+					}
+				}
+			}
+		}
+		// the stored value is the clamped parameter
+		stored := false
+		ast.Inspect(f.Body, func(n ast.Node) bool {
+			if kv, ok := n.(*ast.KeyValueExpr); ok {
+				if k, isID := kv.Key.(*ast.Ident); isID && k.Name == "minP" && isIdentOf(info, kv.Value, mp) {
+					stored = true
+				}
+			}
+			return true
+		})
+		c.Check("C18-R7", f.Key()+" min_p clamped to at most 1 before it is stored", c.Pos(f.Decl), clamp && stored, "with p > 1 the threshold exceeds the largest probability and minP cuts everything")
+	}
+	if f := c.Fn("C18-R7", "sample", "topK"); f != nil {
+		g := c.G(f)
+		kp := paramAt(f, 1)
+		whole, sized := false, false
+		for _, ex := range g.Returns() {
+			r := ast.Unparen(g.ReturnedExpr(ex, 0))
+			if isIdentOf(info, r, paramAt(f, 0)) {
+				// on an edge that covers k <= 0
+				for _, a := range g.Facts(ex.Loc) {
+					if impliesAtom(a.Expr, !a.Val, func(at ast.Expr, v bool) bool {
+						// goal for the *other* edge: k > 0 — i.e. this edge is taken whenever k <= 0
+						be, isB := at.(*ast.BinaryExpr)
+						if !isB || !isIdentOf(info, be.X, kp) {
+							return false
+						}
+						z, isC := core.ConstInt(info, be.Y)
+						return isC && z == 0 && ((be.Op == token.LEQ && !v) || (be.Op == token.GTR && v))
+					}) {
+						whole = true
+					}
+				}
+				continue
+			}
+			// otherwise a slice made with a length derived from k
+			if id, isID := r.(*ast.Ident); isID {
+				for _, as := range g.AssignsTo(info.Uses[id]) {
+					for _, mk := range core.CallsTo(info, as.Node, false, "builtin.make") {
+						if len(mk.Args) >= 2 && closureMentions(g, mk.Args[1], func(m ast.Node) bool { mid, ok := m.(*ast.Ident); return ok && info.Uses[mid] == kp }) {
+							sized = true
+						}
+					}
+				}
+			}
+		}
+		c.Check("C18-R7", f.Key()+" whole list when k <= 0, else k elements", c.Pos(f.Decl), whole && sized, "topK must return its argument on every path where k <= 0 and otherwise a list whose length derives from k")
+	}
+}
